@@ -14,9 +14,11 @@ MANIFEST = {
             "unassigned bytes retire the thread. The subset/equality of executed offsets against the EVM control-flow graph is "
             "evaluated inside Coq by the reference EVM (both JUMPI outcomes) on the implementation's visit counters; the model is tied "
             "to the code by the VM correspondence run and the translated opcode bodies (T1/T9).",
-    "note": "The inclusion 'executed offsets are reachable in the EVM CFG' as a theorem needs C07's path simulation, not proved yet: "
-            "that half is decided by the Coq-evaluated oracle on loop-free programs (partial). A JUMPDEST reached by JUMP is stepped "
-            "over, not executed, by design of Jump::execute: it counts as covered.",
+    "note": "The inclusion 'executed offsets are reachable in the EVM CFG' is a theorem along each path for threads whose steps "
+            "satisfy C07's guards (C08_executed_offsets_reachable, a corollary of C07's path simulation: every offset with a positive "
+            "visit counter that is not push data is a program counter of the reference EVM's run along the thread's ghost path); outside "
+            "those guards and for the equality half it is decided by the Coq-evaluated oracle on loop-free programs (partial). A JUMPDEST "
+            "reached by JUMP is stepped over, not executed, by design of Jump::execute: it counts as covered.",
     "technique": "Coq proof of the jump-validation, fork and halting lemmas on a model with translated opcode bodies; reference-EVM "
                  "reachability evaluated inside Coq on the implementation's visit counters; differential correspondence",
 }
